@@ -451,6 +451,12 @@ def _int_validated_names(fv, before: int) -> Set[str]:
         for sub in ast.walk(term):
             if isinstance(sub, ast.Tuple) and len(sub.elts) > pos and isinstance(sub.elts[pos], ast.Name):
                 ok.add(sub.elts[pos].id)
+            if isinstance(sub, ast.Tuple) and len(sub.elts) > pos and is_sym(sub.elts[pos], "elem"):
+                # ("name", x) appended for every x of a list in a loop that has run to completion
+                for a in ([strip_norm(sub.elts[pos].args[1])] + (list(strip_norm(sub.elts[pos].args[1]).args) if is_sym(strip_norm(sub.elts[pos].args[1]), "phi") else [])):
+                    for s2 in ast.walk(a):
+                        if isinstance(s2, ast.Name) and s2.id != "list":
+                            ok.add("each:" + s2.id)
             if is_sym(sub, "comp") and isinstance(sub.args[1], ast.Tuple) and len(sub.args[1].elts) > pos and is_sym(sub.args[2], "gen"):
                 e = sub.args[1].elts[pos]
                 src = strip_norm(sub.args[2].args[0])
@@ -485,7 +491,9 @@ def _int_validated_names(fv, before: int) -> Set[str]:
                 raw_it = fv.cfg.nodes[head].ast.iter
                 if isinstance(raw_it, ast.Name):
                     for cs in fv.calls():
-                        if isinstance(cs.call.func, ast.Attribute) and cs.call.func.attr in ("extend", "append") and is_name(cs.call.func.value, raw_it.id) and fv.cfg.dominates(cs.node, head):
+                        in_done_loop = [h_ for h_ in fv.cfg.enclosing_loops(cs.node) if fv.cfg.nodes[h_].kind == "for"]
+                        if isinstance(cs.call.func, ast.Attribute) and cs.call.func.attr in ("extend", "append") and is_name(cs.call.func.value, raw_it.id) and (
+                                fv.cfg.dominates(cs.node, head) or (in_done_loop and in_done_loop[0] in fv.cfg.completed_loops_at(head) and not fv.controlling(cs.node, within=fv.cfg.loop_body[in_done_loop[0]]))):
                             for arg in cs.call.args:
                                 harvest(fv.res.resolve(arg, cs.node), pos)
                     for dn in fv.cfg.nodes:
